@@ -7,16 +7,28 @@ cd /verif || exit 2
 P=3; [ "${1:-}" = "-P" ] && { P=$2; shift 2; }
 glob="${1:-*}"
 go1.26.8 build -o bin/verifcheck ./cmd/verifcheck || exit 2
-ls -d seeded/$glob/ | sed 's#/$##' | SKIP_CONFIRM=1 xargs -P "$P" -n 1 tools/try_seeded.sh 2>&1 | grep '^seeded=' | sort > /tmp/mut/matrix.$$.txt
+# every change x the check of its own property, plus the checks named in meta.json "caught_by"
+one() { d=$1; extra=$(jq -r '(.caught_by // []) | join(" ")' "$d/meta.json"); own=$(jq -r .property "$d/meta.json"); SKIP_CONFIRM=1 tools/try_seeded.sh "$d" $own $extra; }
+export -f one
+ls -d seeded/$glob/ | sed 's#/$##' | xargs -P "$P" -n 1 bash -c 'one "$0"' 2>&1 | grep '^seeded=' | sort > /tmp/mut/matrix.$$.txt
 {
-  echo -e "seeded\tproperty\tcheck_exit\tviolation_lines\tverdict"
+  echo -e "seeded\tproperty\tchecks_run\tverdict\tnote"
   while read -r line; do
     id=$(echo "$line" | sed -n 's/^seeded=seeded-\([^ ]*\) .*/\1/p')
-    prop=$(echo "$line" | sed -n 's/.* property=\([^ ]*\) .*/\1/p')
-    rc=$(echo "$line" | sed -n 's/.*:rc=\([0-9]*\),viol=.*/\1/p')
-    nv=$(echo "$line" | sed -n 's/.*,viol=\([0-9]*\)$/\1/p')
-    v=MISSED; [ "$rc" = 1 ] && [ "$nv" -gt 0 ] && v=CAUGHT
-    echo -e "$id\t$prop\t$rc\t$nv\t$v"
+    prop=$(jq -r .property "seeded/$id/meta.json")
+    runs=$(echo "$line" | grep -o 'C[0-9]*:rc=[0-9]*,viol=[0-9]*' | tr '\n' ' ')
+    own=$(echo "$runs" | tr ' ' '\n' | grep "^$prop:" | head -1)
+    v=MISSED; note=""
+    if echo "$own" | grep -q 'rc=1,viol=[1-9]'; then v=CAUGHT
+    else
+      for r in $runs; do
+        if [ "${r%%:*}" != "$prop" ] && echo "$r" | grep -q 'rc=1,viol=[1-9]'; then v="CAUGHT-BY-${r%%:*}"; fi
+      done
+    fi
+    nc=$(jq -r '.not_claimed // empty' "seeded/$id/meta.json"); ob=$(jq -r '.obsolete // empty' "seeded/$id/meta.json")
+    [ "$v" = MISSED ] && [ -n "$nc" ] && { v=NOT-CLAIMED; note="$nc"; }
+    [ "$v" = MISSED ] && [ -n "$ob" ] && { v=OBSOLETE; note="$ob"; }
+    echo -e "$id\t$prop\t$runs\t$v\t$note"
   done < /tmp/mut/matrix.$$.txt
 } > seeded/RESULTS.tsv.new
 if [ "$glob" = "*" ]; then mv seeded/RESULTS.tsv.new seeded/RESULTS.tsv; else cat seeded/RESULTS.tsv.new; rm seeded/RESULTS.tsv.new; fi
